@@ -217,6 +217,7 @@ class C01(Check):
         "auto/cross x count_rr; 20..400 objects per catalog on shared centres. Every cell of dd/dr/rd/rr counts and of "
         "sum_weights1/2 is compared with the brute-force oracle on the records read back from the caches. "
         "non-trivial = every scale has >= 1 certain pair; distinct = case parameters + seed"
+        ' Further classes: data far off the prescribed centres, a hub patch with satellites, all-sky patches, scales from exactly 0, nested/descending scale lists, curved and custom cosmologies, data frames with non-default row labels.'
     )
     assumptions = [
         "catalogs share patch centres (created with patch_centers), as the statement requires",
